@@ -17,7 +17,8 @@ RULE = (
     "neighbourhood size; n_closest_channels set on the instance to 2..12; multi-shank; generic, "
     "grid and single-column geometries with distance ties; whitening present/absent; normal and "
     "small-integer template values (amplitude ties)) and sparse templates (column tables with -1 "
-    "and all-zero columns). Every template x thresholds {None,0,0.3,0.8,1} x whitened/unwhitened "
+    "and all-zero columns). Every template x thresholds {None,0,0.3,0.8,1} (None = the model's default threshold, "
+    "left at 0 or raised to 0.3/0.5 on the instance) x whitened/unwhitened "
     "requests, plus generated explicit channel lists. Oracle: U = T[t] @ wmi, amp = ptp(U); "
     "distinct channels; non-increasing amplitudes, first channel and best_channel maximal; "
     "template[:, j] ~ U[:, ch[j]]; amplitude[j] ~ amp[ch[j]]; channel set between the must/may "
@@ -39,7 +40,8 @@ def _case(draw):
     explicit = [draw(st.lists(st.integers(0, nc - 1), min_size=1, max_size=min(nc, 5), unique=True))
                 for _ in range(2)]
     return {'spec': spec, 'ncc': draw(st.integers(2, 12)), 'explicit': explicit,
-            'scaling': draw(st.sampled_from([None, None, 2.0]))}
+            'scaling': draw(st.sampled_from([None, None, 2.0])),
+            'default_thr': draw(st.sampled_from([None, None, 0.5, 0.3]))}
 
 
 def drivers(tier):
@@ -107,6 +109,8 @@ def check(case):
             m.n_closest_channels = case['ncc']
             if case['scaling']:
                 m.template_scaling = case['scaling']
+            if case.get('default_thr') is not None:
+                m.amplitude_threshold = case['default_thr']     # the model's default threshold
             scal = case['scaling'] or 1.0
             wmi = D.wmi_of(T)
             nt, nc = spec['nt'], spec['nc']
@@ -121,7 +125,8 @@ def check(case):
                             what = 'get_template(%d, thr=%r, unwhiten=%r)' % (t, thr, unwhiten)
                             rec = must_return(what, m.get_template, t, amplitude_threshold=thr,
                                               unwhiten=unwhiten)
-                            o = check_dense_record(rec, U, T.pos, T.shanks, case['ncc'], thr, what)
+                            eff = case.get('default_thr') if thr is None else thr
+                            o = check_dense_record(rec, U, T.pos, T.shanks, case['ncc'], eff, what)
                             if thr in (0.3, 0.8):
                                 full = must_return(what, m.get_template, t, amplitude_threshold=0,
                                                    unwhiten=unwhiten)
